@@ -796,6 +796,28 @@ package common
 //@   ensures err == nil ==> r == st_prevjust(s)
 
 
+//@ sort Eth1T = Eth1Data
+//@ sort DepDataT = DepositData
+//@ ufun st_eth1_err(StateI) bool
+//@ ufun st_eth1(StateI) Eth1T
+//@ ufun st_depidx_err(StateI) bool
+//@ ufun st_depidx(StateI) int
+//@ ufun deposit_data_root(DepDataT) RootT
+//@ func (s BeaconState) Eth1Data() (r, err)
+//@   trusted
+//@   opt noalloc
+//@   ensures (err != nil) == st_eth1_err(s)
+//@   ensures err == nil ==> r == st_eth1(s)
+//@ func (s BeaconState) Eth1DepositIndex() (r, err)
+//@   trusted
+//@   opt noalloc
+//@   ensures (err != nil) == st_depidx_err(s)
+//@   ensures err == nil ==> r == st_depidx(s)
+//@ func (d *DepositData) HashTreeRoot(hFn) r
+//@   trusted
+//@   opt noalloc
+//@   ensures r == deposit_data_root(*d)
+
 // BEGIN C18 generated (tools/gen_c18.py in /verif)
 // cancelled: a context cancelled before the call makes it fail; surfaced: a cancellation observed by a poll
 // during the call makes it fail; polled: success after a poll means the context was not cancelled at entry.
